@@ -117,6 +117,9 @@ class ChainNode(Entity):
         self._pending_writes: dict[int, SimFuture] = {}
         self._next_seq: int = 0
 
+        # Highest sequence number accepted per key (propagations can be reordered)
+        self._newest_seq: dict[str, int] = {}
+
         self._writes_received = 0
         self._propagations_sent = 0
         self._propagations_received = 0
@@ -254,8 +257,14 @@ class ChainNode(Entity):
 
         self._propagations_received += 1
 
-        # Apply locally
-        yield from self._store.put(key, value)
+        if seq < self._newest_seq.get(key, 0):
+            # Overtaken by a later write to this key: spend the write latency (so it is
+            # not passed on before the newer value is stored) but keep the newer value
+            yield self._store.write_latency
+        else:
+            # Apply locally
+            self._newest_seq[key] = seq
+            yield from self._store.put(key, value)
 
         if self._craq_enabled:
             self._dirty_keys.add(key)
